@@ -375,6 +375,19 @@ pub fn c12_damage(prop: &str, seed: u64, case: &crate::case::Case, thorough: boo
         rng.shuffle(&mut batch_frames);
         batch_frames.truncate(24);
     }
+    // control entries too: a lost delete_queue / re-creation entry makes replay meet two incarnations' batches
+    // on one queue name, and what it does with the overlapping positions shows in the later batch
+    let mut control_frames: Vec<usize> = Vec::new();
+    for e in &parsed.entries {
+        if matches!(e.kind, EntryKind::Delete { .. } | EntryKind::Position { .. } | EntryKind::Truncate { .. }) {
+            control_frames.extend(e.first_frame..=e.last_frame);
+        }
+    }
+    if !thorough && control_frames.len() > 10 {
+        rng.shuffle(&mut control_frames);
+        control_frames.truncate(10);
+    }
+    batch_frames.extend(control_frames);
     for &fi in &batch_frames {
         let mut ops_list: Vec<Vec<DamageOp>> = Vec::new();
         let pv: Vec<u8> = if thorough { (0..6).collect() } else { vec![rng.below(6) as u8] };
